@@ -527,6 +527,9 @@ def _m(name, fn, gen=None, **kw):
 _m('dict', lambda pt, a: a['self'].dict(), weight=2)
 _m('mod_dict', lambda pt, a: a['self'].mod_dict(), weight=2)
 _m('copy', lambda pt, a: a['self'].copy(), weight=2)
+# the copies a client makes without the library's help (whatever the library keeps on the instance travels along)
+_m('py_deepcopy', lambda pt, a: __import__('copy').deepcopy(a['self']))
+_m('py_pickle', lambda pt, a: __import__('pickle').loads(__import__('pickle').dumps(a['self'])))
 _m('strip', lambda pt, a: a['self'].strip(inplace=False))
 _m('condense_static_mods', lambda pt, a: a['self'].condense_static_mods(inplace=False))
 _m('count_residues', lambda pt, a: a['self'].count_residues(), weight=2)
